@@ -1780,7 +1780,7 @@ func main() {
 	corpus(p, dir, tr)
 
 	rng := hx.NewRng(args.Seed)
-	nWrap, nWrapMed, nRoute, depth, nSeq := 380, 220, 1500, 3, 70
+	nWrap, nWrapMed, nRoute, depth, nSeq := 330, 200, 1300, 3, 70
 
 	if args.Tier == "thorough" {
 		nWrap, nWrapMed, nRoute, depth, nSeq = 4000, 2000, 30000, 4, 1200
